@@ -8,7 +8,7 @@ ROOT=${1:-/verif/benign}
 for f in $(ls $ROOT/*/patch.diff $ROOT/*/_seed/patch*.diff 2>/dev/null | sort); do
   git apply $f || { echo "$f: DOES NOT APPLY"; continue; }
   tmp=$(mktemp)
-  /verif/bin/lfscheck -repo $R -verif /verif -prop all > $tmp 2>&1
+  timeout 900 /verif/bin/lfscheck -repo $R -verif /verif -prop all > $tmp 2>&1
   git checkout -- . ; git clean -fdq
   bad=$(grep -E "^RESULT" $tmp | grep -v "rc=0" | sed 's/RESULT //' | tr '\n' ' ')
   echo "$f: ${bad:-ok}"
